@@ -81,5 +81,18 @@ RV(b, i, acc) ==
        ELSE RV(b, i + 1, Append(acc, b[i] - 128))
 ReadVarUint(b) == RV(b, 1, <<>>)
 
+\* ---- decimal text of a number given as limbs ----
+RECURSIVE DivMod10(_, _, _)
+\* long division by 10 from the most significant limb: returns <<quotient limbs (msb first, built up), remainder>>
+DivMod10(lm, i, r) == IF i = 0 THEN <<<<>>, r>>
+                      ELSE LET cur == r * 128 + lm[i]  rest == DivMod10(lm, i - 1, cur % 10) IN
+                           <<Append(rest[1], cur \div 10), rest[2]>>
+\* Append builds least-significant first because the recursion returns from the low end: quotient[j] belongs to limb j
+Div10(lm) == LET d == DivMod10(lm, Len(lm), 0) IN [q |-> Strip(d[1]), r |-> d[2]]
+RECURSIVE Digits(_)
+Digits(lm) == IF lm = <<>> THEN <<>> ELSE LET d == Div10(lm) IN Append(Digits(d.q), 48 + d.r)
+DecText(n) == (IF n.neg /\ n.mag # <<>> THEN <<45>> ELSE <<>>) \o (IF n.mag = <<>> THEN <<48>> ELSE Digits(n.mag))
+
+
 Max(a, b) == IF a > b THEN a ELSE b
 =============================================================================
